@@ -417,9 +417,18 @@ func (fr *frame) contractMods(m *loopMods, c *FuncContract, pkg *packagesPackage
 	if sig.Recv() != nil && c.RecvName != "" {
 		env.vars[c.RecvName] = freshValue(sig.Recv().Type(), "scan")
 	}
+	shift := 0
+	if sig.Recv() != nil && c.RecvName == "" && c.External != "" && len(c.Params) > 0 {
+		// models of external methods list the receiver as their first parameter
+		env.vars[c.Params[0]] = freshValue(sig.Recv().Type(), "scan")
+		shift = 1
+	}
 	for i, n := range c.Params {
-		if i < sig.Params().Len() {
-			env.vars[n] = freshValue(sig.Params().At(i).Type(), "scan")
+		if i < shift {
+			continue
+		}
+		if i-shift < sig.Params().Len() {
+			env.vars[n] = freshValue(sig.Params().At(i-shift).Type(), "scan")
 		}
 	}
 	for _, cl := range c.Clauses {
@@ -791,6 +800,7 @@ func (fr *frame) execRange(st *State, x *ast.RangeStmt, label string) []Outcome 
 	switch u := rt.Underlying().(type) {
 	case *types.Slice:
 		n = rv.Len
+		ls.extra[fmt.Sprintf("range$%d", ord)] = rv // the ranged slice (evaluated once) is visible to invariants
 		prepare = func(s *State) {
 			bindVar(s, x.Key, s.vars[cursor])
 			if x.Value != nil {
